@@ -70,6 +70,12 @@ type c18S6 struct {
 	M map[string]*int16 `cty:"m"`
 }
 
+type c18S8 struct {
+	L []cty.Value          `cty:"l"`
+	M map[string]cty.Value `cty:"m"`
+	N int                  `cty:"n"`
+}
+
 var (
 	c18BigIntT   = reflect.TypeOf(big.Int{})
 	c18BigFloatT = reflect.TypeOf(big.Float{})
@@ -99,7 +105,9 @@ var c18Family = []c18Fam{
 	{c18T(new([]*int)), true}, {c18T(new([]**int8)), true}, {c18T(new([3]*int16)), true}, {c18T(new([]c18S5)), true}, {c18T(new([2]c18S5)), true},
 	{c18T(new(c18S6)), true}, {c18T(new([]*c18S6)), true}, {c18T(new(map[string]*big.Int)), true}, {c18T(new([]*big.Float)), true},
 	{c18T(new(c18Emb)), true}, {c18T(new([]c18Emb)), true}, // embedded (anonymous) struct field carrying a tag
-	{c18T(new([]cty.Value)), false}, // decode target only: a list of dynamic values has no single element type
+	// containers of embedded dynamic values: members of one type round-trip, members of different types must be refused
+	{c18T(new([]cty.Value)), true}, {c18T(new(map[string]cty.Value)), true}, {c18T(new([2]cty.Value)), true}, {c18T(new([]*cty.Value)), true},
+	{c18T(new(c18S8)), true},
 }
 
 var c18IntTypes = c18Family[:10]
@@ -404,6 +412,11 @@ type c18Gen struct {
 	// entries and no pointer is nil, so that entries sharing a pointee after decoding show up
 	distinct bool
 	seq      int
+	// cty.Value members of a slice, array or map: cvTy != nil — all of this one type (a cty list or map
+	// has one element type); cvTyped — each of a type of its own, never the dynamic pseudo-type
+	cvTy     *cty.Type
+	cvTyped  bool
+	hitMixed bool // a container of cty.Value got members of different types
 }
 
 var c18NonNFCAtoms = []string{"é", "Å", "가", "áb"}
@@ -519,6 +532,44 @@ func c18RandUint(r *rand.Rand, bits int) uint64 {
 	}
 }
 
+// c18CvalElem: the element type is cty.Value, possibly behind pointers
+func c18CvalElem(rt reflect.Type) bool {
+	for rt.Kind() == reflect.Ptr {
+		rt = rt.Elem()
+	}
+	return rt == c18ValueT
+}
+
+// c18MixedCval: a slice, array or map whose cty.Value members (behind non-nil pointers) are not all of one type
+func c18MixedCval(v reflect.Value) bool {
+	var tys []cty.Type
+	add := func(e reflect.Value) {
+		for e.Kind() == reflect.Ptr {
+			if e.IsNil() {
+				return
+			}
+			e = e.Elem()
+		}
+		tys = append(tys, e.Interface().(cty.Value).Type())
+	}
+	switch v.Kind() {
+	case reflect.Slice, reflect.Array:
+		for i := 0; i < v.Len(); i++ {
+			add(v.Index(i))
+		}
+	case reflect.Map:
+		for _, k := range v.MapKeys() {
+			add(v.MapIndex(k))
+		}
+	}
+	for _, t := range tys {
+		if !t.Equals(tys[0]) {
+			return true
+		}
+	}
+	return false
+}
+
 func c18NilableElem(rt reflect.Type) bool {
 	if rt == c18ValueT {
 		return true
@@ -553,9 +604,31 @@ func (g *c18Gen) gen(rt reflect.Type, depth int) reflect.Value {
 		v.Set(reflect.ValueOf(*c18RandBigFloat(r)))
 		return v
 	case c18ValueT:
+		if g.cvTy != nil || g.cvTyped {
+			t := genTy(r, 1, TyOpts{})
+			if g.cvTy != nil {
+				t = *g.cvTy
+			}
+			v.Set(reflect.ValueOf(genVal(r, t, 2, ValOpts{Unknown: true, Null: true, Marks: r.Intn(4) == 0})))
+			return v
+		}
 		t := genTy(r, 2, TyOpts{Dyn: true, Capsule: false})
 		v.Set(reflect.ValueOf(genVal(r, t, 2, ValOpts{Unknown: true, Null: true, Marks: true, DynVal: true})))
 		return v
+	}
+	if k := rt.Kind(); (k == reflect.Slice || k == reflect.Array || k == reflect.Map) && c18CvalElem(rt.Elem()) && g.cvTy == nil && !g.cvTyped {
+		if r.Intn(3) != 0 {
+			t := genTy(r, 1, TyOpts{})
+			g.cvTy = &t
+		} else {
+			g.cvTyped = true
+		}
+		defer func() {
+			g.cvTy, g.cvTyped = nil, false
+			if c18MixedCval(v) {
+				g.hitMixed = true
+			}
+		}()
 	}
 	switch rt.Kind() {
 	case reflect.Int8, reflect.Int16, reflect.Int32, reflect.Int64, reflect.Int:
@@ -1103,6 +1176,15 @@ func runC18RoundTrip(ctx *Ctx) {
 			}
 			ctx.Fail(Failure{Site: "roundtrip", Sig: sig, What: "FromCtyValue(ToCtyValue(g, implied type)) must reproduce g exactly, nil <-> null",
 				Input: gw + " " + tw, GoLit: lit, Outcome: outcome})
+		}
+		if g.hitMixed {
+			// members of different types can not be one cty list/map: "exact or refuses" demands an error
+			ctx.Tag("rt-mixed:" + implTo[:2])
+			if implTo != "err" {
+				ctx.Fail(Failure{Site: "roundtrip", Sig: "slice, array or map of cty.Value with members of different types: ToCtyValue panics in cty.ListVal/MapVal instead of returning an error",
+					What: "a Go value that has no cty representation must be refused with an error", Input: gw + " " + tw, GoLit: lit, Outcome: "ToCtyValue: " + implTo})
+			}
+			return
 		}
 		if !strings.HasPrefix(implTo, "ok") {
 			fail("ToCtyValue: " + implTo)
